@@ -8,8 +8,9 @@ import (
 
 // BuiltinDump logs every accessor of the seven built-in alphabets over all 256
 // letters, and AllValid on every one-letter slice, on every pair of a few
-// letters and on nslices random slices per alphabet.
+// letters and on nslices random slices per alphabet; then slices with letters >= 128 (BuiltinHighSlices).
 func BuiltinDump(w *vt.W, rng *rand.Rand, nslices int) {
+	defer BuiltinHighSlices(w, rng, nslices)
 	for _, b := range Builtins {
 		Run(w, Case{Kind: "builtin", Name: b.Name})
 	}
@@ -280,12 +281,16 @@ func allValidCase(rng *rand.Rand) Case {
 
 // Random logs n random cases of each kind: alphabets (distinct letters, repeated
 // letters, non-ASCII), pairings (symmetric ones and damaged ones), complementing
-// alphabets (pairs inside, partly outside and outside the alphabet) and letter slices.
+// alphabets (pairs inside, partly outside and outside the alphabet) and letter slices, then n slices
+// with runs of letters >= 128 (highSliceCase).
 func Random(w *vt.W, rng *rand.Rand, n int) {
 	for i := 0; i < n; i++ {
 		Run(w, alphaCase(rng))
 		Run(w, pairingCase(rng))
 		Run(w, compCase(rng))
 		Run(w, allValidCase(rng))
+	}
+	for i := 0; i < n; i++ {
+		Run(w, highSliceCase(rng))
 	}
 }
